@@ -431,12 +431,20 @@ end Final
 
 /-! ## 5. Well-formed annotation graphs -/
 
+/-- The two types have the same member types (as sets). -/
+def SameKids (g : TyGraph) (a b : Nat) : Prop := ∀ c, c ∈ g.kidTys a ↔ c ∈ g.kidTys b
+
+theorem SameKids.refl (a : Nat) : SameKids g a a := fun _ => Iff.rfl
+theorem SameKids.symm {a b : Nat} (h : SameKids g a b) : SameKids g b a := fun c => (h c).symm
+theorem SameKids.trans {a b c : Nat} (h1 : SameKids g a b) (h2 : SameKids g b c) : SameKids g a c :=
+  fun x => (h1 x).trans (h2 x)
+
 /-- What the theorems below need of an annotation graph; `rk` certifies that every cycle of the member
     relation passes through a named non-stdlib type. -/
 structure WF (g : TyGraph) (rk : Nat → Nat) : Prop where
   rank : ∀ t, ∀ vc ∈ g.kids t, g.cuttable vc.2 = false → rk vc.2 < rk t
   stdClosed : ∀ t, g.stdlib t = true → ∀ vc ∈ g.kids t, g.stdlib vc.2 = true
-  kidsUnw : ∀ t, g.kidTys (g.unw t) = g.kidTys t
+  kidsUnw : ∀ t, SameKids g (g.unw t) t
   unwIdem : ∀ t, g.unw (g.unw t) = g.unw t
 
 theorem out_of_range {t : Nat} (h : g.size ≤ t) : g.tys[t]? = none :=
@@ -463,9 +471,10 @@ theorem wf_sound (h : wf g = true) : WF g (rank g) := by
   · intro t
     by_cases ht : t < g.size
     · have := (h t ht).2
-      simp only [unwOKAt, Bool.and_eq_true, beq_iff_eq] at this
-      exact this.1
-    · simp [TyGraph.unw, out_of_range (Nat.le_of_not_lt ht)]
+      simp only [unwOKAt, subKids, Bool.and_eq_true, beq_iff_eq, List.all_eq_true, List.contains_iff_mem] at this
+      exact fun c => ⟨this.1.1 c, this.1.2 c⟩
+    · have : g.unw t = t := by simp [TyGraph.unw, out_of_range (Nat.le_of_not_lt ht)]
+      rw [this]; exact SameKids.refl t
   · intro t
     by_cases ht : t < g.size
     · have := (h t ht).2
@@ -617,9 +626,9 @@ end Final
 /-- All members of `t` count as visited. -/
 def Done (g : TyGraph) (vis : List Nat) (t : Nat) : Prop := ∀ c ∈ g.kidTys t, seen g vis c = true
 
-theorem done_congr {vis : List Nat} {t t' : Nat} (h : g.kidTys t = g.kidTys t') (hd : Done g vis t) :
+theorem done_congr {vis : List Nat} {t t' : Nat} (h : SameKids g t t') (hd : Done g vis t) :
     Done g vis t' := by
-  intro c hc; rw [← h] at hc; exact hd c hc
+  intro c hc; exact hd c ((h c).2 hc)
 
 theorem done_mono {vis vis' : List Nat} (h : ∀ x ∈ vis, x ∈ vis') {t : Nat} (hd : Done g vis t) :
     Done g vis' t := fun c hc => seen_mono h (hd c hc)
@@ -629,7 +638,7 @@ theorem done_mono {vis vis' : List Nat} (h : ∀ x ∈ vis, x ∈ vis') {t : Nat
 def QInv (g : TyGraph) (vis : List Nat) : (Node → Prop) → List Node → Prop
   | _, [] => True
   | E, q :: rest =>
-    (q.cyclic = true → Done g vis q.ty ∨ ∃ q', E q' ∧ g.kidTys q'.ty = g.kidTys q.ty)
+    (q.cyclic = true → Done g vis q.ty ∨ ∃ q', E q' ∧ SameKids g q'.ty q.ty)
       ∧ QInv g vis (fun x => E x ∨ x = q) rest
 
 theorem qinv_mono {vis : List Nat} (l : List Node) : ∀ {E E' : Node → Prop}, (∀ x, E x → E' x) →
@@ -681,9 +690,9 @@ theorem seen_cases {vis : List Nat} {c : Nat} (hs : seen g vis c = true) : c ∈
   simpa [seen] using hs
 
 /-- The entries pushed for one parent satisfy the queue invariant relative to what stood before them. -/
-theorem expand_qinv (hk : ∀ t, g.kidTys (g.unw t) = g.kidTys t) (V : List Nat)
+theorem expand_qinv (hk : ∀ t, SameKids g (g.unw t) t) (V : List Nat)
     (ks : List (Option Str × Nat)) : ∀ (vis : List Nat) (E : Node → Prop),
-    (∀ v ∈ vis, Done g V v ∨ ∃ q', E q' ∧ g.kidTys q'.ty = g.kidTys v) →
+    (∀ v ∈ vis, Done g V v ∨ ∃ q', E q' ∧ SameKids g q'.ty v) →
     (∀ x ∈ (expand g vis ks).vis, x ∈ V) → QInv g V E (expand g vis ks).pushed := by
   induction ks with
   | nil => intro vis E _ _; simp [expand_nil, QInv]
@@ -703,19 +712,19 @@ theorem expand_qinv (hk : ∀ t, g.kidTys (g.unw t) = g.kidTys t) (V : List Nat)
         · exact H c hm
         · rcases H _ hm with d | ⟨q', hq', hkk⟩
           · exact Or.inl (done_congr (hk c) d)
-          · exact Or.inr ⟨q', hq', by rw [hkk, hk]; rfl⟩
+          · exact Or.inr ⟨q', hq', hkk.trans (hk c)⟩
       · intro u hu
         simp only [List.mem_append, List.mem_cons, List.not_mem_nil, or_false] at hu
         rcases hu with hu | rfl | rfl
         · rcases H u hu with d | ⟨q', hq', hkk⟩
           · exact Or.inl d
           · exact Or.inr ⟨q', Or.inl hq', hkk⟩
-        · exact Or.inr ⟨_, Or.inr rfl, rfl⟩
-        · exact Or.inr ⟨_, Or.inr rfl, by simp [plainNode, hk]⟩
+        · exact Or.inr ⟨_, Or.inr rfl, SameKids.refl _⟩
+        · exact Or.inr ⟨_, Or.inr rfl, (hk c).symm⟩
 
-theorem expand_vis_src (hk : ∀ t, g.kidTys (g.unw t) = g.kidTys t) (ks : List (Option Str × Nat)) :
+theorem expand_vis_src (hk : ∀ t, SameKids g (g.unw t) t) (ks : List (Option Str × Nat)) :
     ∀ (vis : List Nat), ∀ u ∈ (expand g vis ks).vis,
-      u ∈ vis ∨ ∃ n ∈ (expand g vis ks).pushed, g.kidTys n.ty = g.kidTys u := by
+      u ∈ vis ∨ ∃ n ∈ (expand g vis ks).pushed, SameKids g n.ty u := by
   induction ks with
   | nil => intro vis u hu; exact Or.inl (by simpa [expand_nil] using hu)
   | cons k rest ih =>
@@ -731,8 +740,8 @@ theorem expand_vis_src (hk : ∀ t, g.kidTys (g.unw t) = g.kidTys t) (ks : List 
       · simp only [List.mem_append, List.mem_cons, List.not_mem_nil, or_false] at h1
         rcases h1 with h1 | rfl | rfl
         · exact Or.inl h1
-        · exact Or.inr ⟨_, List.mem_cons_self, rfl⟩
-        · exact Or.inr ⟨_, List.mem_cons_self, by simp [plainNode, hk]⟩
+        · exact Or.inr ⟨_, List.mem_cons_self, SameKids.refl _⟩
+        · exact Or.inr ⟨_, List.mem_cons_self, (hk c).symm⟩
       · exact Or.inr ⟨n, List.mem_cons_of_mem _ hn, hkk⟩
 
 /-- Rank of a node for the acyclicity argument: forward references (0) < stdlib nodes (1) < re-walked
@@ -875,7 +884,7 @@ theorem expand_preds_fresh (ks : List (Option Str × Nat)) : ∀ vis : List Nat,
 structure InvB (g : TyGraph) (rk : Nat → Nat) (s : State) : Prop where
   qIn : ∀ q ∈ s.queue, q.isRef = false ∧ q.ty ∈ s.vis
   qinv : QInv g s.vis (fun _ => False) s.queue
-  visDone : ∀ v ∈ s.vis, Done g s.vis v ∨ ∃ q ∈ s.queue, g.kidTys q.ty = g.kidTys v
+  visDone : ∀ v ∈ s.vis, Done g s.vis v ∨ ∃ q ∈ s.queue, SameKids g q.ty v
   edgeOK : ∀ a ∈ s.adds, ∀ c ∈ a.2, Below g rk s.vis c a.1
 
 theorem invB_init {rk : Nat → Nat} (hw : WF g rk) (root : Nat) : InvB g rk (init g root) where
@@ -886,8 +895,8 @@ theorem invB_init {rk : Nat → Nat} (hw : WF g rk) (root : Nat) : InvB g rk (in
     simp only [init, List.mem_cons, List.not_mem_nil, or_false] at hv
     refine Or.inr ⟨rootNode g root, by simp [init], ?_⟩
     rcases hv with rfl | rfl
-    · rfl
-    · simp [rootNode, plainNode, hw.kidsUnw]
+    · exact SameKids.refl _
+    · exact (hw.kidsUnw root).symm
   edgeOK := by simp [init]
 
 theorem invB_step {rk : Nat → Nat} (hw : WF g rk) (s : State) (p : Node) (rest : List Node)
@@ -900,7 +909,7 @@ theorem invB_step {rk : Nat → Nat} (hw : WF g rk) (s : State) (p : Node) (rest
   obtain ⟨hphead, hqrest⟩ := hqinv
   -- what is known of a type visited before this step
   have hold : ∀ v ∈ s.vis, Done g (expand g s.vis (g.kids p.ty)).vis v ∨
-      ∃ q', q' ∈ rest ∧ g.kidTys q'.ty = g.kidTys v := by
+      ∃ q', q' ∈ rest ∧ SameKids g q'.ty v := by
     intro v hv
     rcases h.visDone v hv with d | ⟨q, hqm, hk⟩
     · exact Or.inl (done_mono hmono d)
